@@ -2,7 +2,7 @@
 (* impl -> spec for C01 and C02.
    "c01":    a generated program of the crate, its serialisation, the result of decoding and re-encoding it
              (redemption and commitment time).  The spec encoder must explain the crate's bytes and the
-             spec decoder must accept them (jet-free programs and Core jets) and re-encode them identically.
+             spec decoder must accept them (with the jet table of the program's family) and re-encode them identically.
    "decode": an arbitrary / mutated byte string offered to every decoder of the crate, with outcome class,
              re-encoding equality, peak allocation and time.  Clauses of C02, and the spec decoder's verdict
              (jet-free inputs): what the crate accepts the spec accepts. *)
@@ -11,7 +11,10 @@ Rec == ndJsonDeserialize(IOEnv.TRACE)
 \* the Core family's jet table (overrides Codec!JetRows): the spec decoder gives a verdict for Core programs with jets
 \* (read once into a TLC register: a definition over IOEnv would be re-evaluated, i.e. the file re-read, at every use)
 ASSUME TLCSet(7, SelectSeq(ndJsonDeserialize(IOEnv.JETS), LAMBDA r : "side" \notin DOMAIN r /\ r.family = "core"))
-CoreJets == TLCGet(7)
+ASSUME TLCSet(8, SelectSeq(ndJsonDeserialize(IOEnv.JETS), LAMBDA r : "side" \notin DOMAIN r /\ r.family = "elements"))
+ASSUME TLCSet(9, "core")
+\* register 9 holds the family of the event being judged (trace validation runs with one worker)
+CoreJets == IF TLCGet(9) = "elements" THEN TLCGet(8) ELSE TLCGet(7)
 VARIABLE l
 AllocC0 == 50331648
 AllocK == 65536
@@ -36,8 +39,8 @@ ClausesC01(e) ==
    WellTyped(d, t, TRUE),
    \* 4: the spec encoder explains the crate's bytes
    EncodeRedeemBits(d, t, w) = e.rt.pb /\ EncodeWitnessBits(d, t, w) = e.rt.wb,
-   \* 5: the spec decoder accepts them and re-encodes them identically (jet-free programs and Core jets)
-   (e.has_jets /\ e.family # "core") \/ LET r == DecodeRedeem(e.rt.pb, e.rt.wb) IN
+   \* 5: the spec decoder accepts them and re-encodes them identically (with the jet table of the program's family)
+   TLCSet(9, e.family) /\ LET r == DecodeRedeem(e.rt.pb, e.rt.wb) IN
                  r.ok /\ EncodeRedeemBits(r.dag, r.ty, r.wit) = e.rt.pb /\ EncodeWitnessBits(r.dag, r.ty, r.wit) = e.rt.wb
   >>
 DecOk(name, r, n) ==
@@ -49,13 +52,20 @@ DecOk(name, r, n) ==
 ClausesDecode(e) ==
   LET g == e.got  n == e.nbytes
       sr == DecodeRedeem(e.pb, e.wb)
-      sc == DecodeCommit(e.pb) IN
+      sc == DecodeCommit(e.pb)
+      sre == DecodeRedeem(e.pb, e.wb)        \* evaluated (lazily) after register 9 is switched to "elements"
+      sce == DecodeCommit(e.pb) IN
   <<
+   TLCSet(9, "core"),
    DecOk("redeem", g.redeem_core, n), DecOk("redeem", g.redeem_elements, n),
    DecOk("commit", g.commit_core, n), DecOk("commit", g.commit_elements, n), DecOk("construct", g.construct_core, n),
    \* 6-7: an input the crate accepts is one the spec decoder accepts (or contains jets)
    g.redeem_core.out = "ok" => (sr.ok \/ sr.why = "skip"),
-   g.commit_core.out = "ok" => (sc.ok \/ sc.why = "skip")
+   g.commit_core.out = "ok" => (sc.ok \/ sc.why = "skip"),
+   \* 8-10: the same for the Elements family's decoders, with the Elements jet table
+   TLCSet(9, "elements"),
+   g.redeem_elements.out = "ok" => sre.ok,
+   g.commit_elements.out = "ok" => sce.ok
   >>
 Clauses(e) == IF e.ev = "c01" THEN ClausesC01(e) ELSE ClausesDecode(e)
 AllTrue(cl) == \A k \in 1..Len(cl) : cl[k]
